@@ -890,6 +890,60 @@ func (g *gen) schema() (Decls, string) {
 			add("up", g.upward())
 			g.upwards++
 		}
+		if r.Chance(0.25) {
+			// external properties, also cast and below an object
+			ex := &GDecl{External: sp(r.PickStr("ext1", "ext2", "ext3", "ext4", "ext5"))}
+			g.flags(ex)
+			add("ex", ex)
+			if r.Chance(0.4) {
+				add("exo", &GDecl{HasObject: true, Object: []KV{{"e", &GDecl{External: sp(r.PickStr("ext2", "ext3", "ext5")), Type: sp(r.PickStr("int", "string", "boolean"))}}}})
+			}
+		}
+		if r.Chance(0.4) {
+			// a string function over leaf arguments, some of them cast to a non-string type
+			fname := r.PickStr("upper", "lower", "concat", "concat", "coalesce")
+			na := 1
+			if fname == "concat" || fname == "coalesce" {
+				na = r.Between(1, 3)
+			}
+			f := &GFunc{Name: fname, IgnoreError: r.Chance(0.3)}
+			for i := 0; i < na; i++ {
+				var a *GDecl
+				switch r.Pick(3) {
+				case 0:
+					a = &GDecl{Const: sp(r.PickStr("65", "ab", "1.5", "true", " x ", "", "0"))}
+				case 1:
+					a = &GDecl{XPath: sp(r.PickStr("a", "b", "item", "@id", "x", "nosuch"))}
+				default:
+					a = &GDecl{External: sp(r.PickStr("ext2", "ext3", "ext1"))}
+				}
+				if r.Chance(0.5) {
+					a.Type = sp(r.PickStr("int", "float", "boolean", "string"))
+				}
+				a.Keep = r.Chance(0.2)
+				f.Args = append(f.Args, a)
+			}
+			fd := &GDecl{Func: f}
+			g.flags(fd)
+			add("sfn", fd)
+		}
+		if r.Chance(0.3) {
+			// an array element that is null for some matches and asks to keep it; directly and
+			// through a template
+			nm := "item"
+			if r.Chance(0.3) {
+				nm = g.name()
+			}
+			el := &GDecl{Func: &GFunc{Name: "verif_echo", Args: []*GDecl{{XPath: sp(".")}}}, Keep: r.Chance(0.8)}
+			if r.Chance(0.4) {
+				ds["tnull"] = el
+				add("pnull", &GDecl{HasArray: true, Array: []*GDecl{{Template: sp("tnull"), XPath: sp(nm)}}})
+			} else {
+				e2 := *el
+				e2.XPath = sp(nm)
+				add("pnull", &GDecl{HasArray: true, Array: []*GDecl{&e2}})
+			}
+		}
 		if r.Chance(0.15) {
 			// F28 shape, made visible: a template reference whose xpath_dynamic is computed from
 			// the NUMBER of elements of an array below it: two elements select "." (the record),
@@ -1006,7 +1060,11 @@ func (g *gen) xmlElem(sb *strings.Builder, name string, depth int) {
 			if r.Chance(0.5) {
 				sb.WriteString(` k="` + xmlEsc(predVals[r.Pick(len(predVals))]) + `"`)
 			}
-			sb.WriteString(">" + xmlEsc(g.text()) + "</item>")
+			if r.Chance(0.3) {
+				sb.WriteString("></item>") // an empty one: its text is a null / omitted value
+			} else {
+				sb.WriteString(">" + xmlEsc(g.text()) + "</item>")
+			}
 		}
 	}
 	if depth == 3 && g.nsDoc && r.Chance(0.7) {
